@@ -180,6 +180,13 @@ func (m *Engine) InputIsTerminator() bool {
 		binds[sequence] = inputrc.Bind{Action: "abort", Macro: false}
 	}
 
+	// Keys typed ahead are not the ones that have invoked the command: they are left
+	// alone (matching them here would consume one of them, and the interrupt key would
+	// no longer interrupt because more keys happened to be read along with it).
+	if _, empty := core.PeekKey(m.keys); !empty {
+		return m.active.Action == "abort"
+	}
+
 	bind, _, _, _ := m.dispatchKeys(binds)
 
 	return bind.Action == "abort"
